@@ -10,16 +10,31 @@ class C01(Check):
     shard_size = 120
     model_desc = ("Model/Rdata.v (field codecs of msg_helpers.go), Model/Msg.v (packRR, UnpackRR, Msg.Pack/Unpack, "
                   "header word, OPT/RCODE split) interpreting the per-type field sequences that tools/gotrans "
-                  "regenerates from zmsg.go each run (Gen/Layouts.v), Model/NameWire.v for names")
+                  "regenerates from zmsg.go each run (Gen/Layouts.v), Model/NameWire.v for names; Model/OptVal.v + "
+                  "Model/OptValUnpack.v: every EDNS0_*.pack/unpack (makeDataOpt) and SVCB*.pack/unpack/len "
+                  "(makeSVCBKeyValue) at Go struct level, Model/Options.v the same codecs as octet-level views")
     rule = ("every registered type x well-formed and ill-formed records (reflection-driven, boundary-biased values), "
             "unknown types as RFC 3597, RDATA-less update records, random messages with shared name suffixes and OPT "
             "in any position, RCODE 0..4095 with/without OPT, header flag words; direct oracles: Unpack(Pack(x)) = x in "
             "every field, Pack(Unpack(octets)) = octets for canonical uncompressed input; model cases: pack octets and "
-            "unpacked values for a sample of all of these. Non-trivial: the record has RDATA / the message has records.")
+            "unpacked values for a sample of all of these; struct-level option codecs: generated EDNS0 / SVCB values "
+            "(boundary-biased, inconsistent on purpose) packed, unpacked and packed again (oracle: unpack accepts what "
+            "pack wrote and repacks to the same octets, outside the two refuted classes), raw value octets of every "
+            "length 0..20 for every known and several unknown codes / keys, truncated and over-long packed values, "
+            "SUBNET / REPORTING / alpn / hint boundary streams; model cases optunpack / svcbunpack: error class or "
+            "decoded value and its repacked octets. Non-trivial: the record has RDATA / the message has records.")
     trusted = ["hex/base64/base32 text codecs of Go's encoding/* are outside the model (fields held as the octets they denote)",
-               "EDNS0 option and SVCB parameter values are (code, packed value) pairs at this level"]
+               "inside records and messages EDNS0 option and SVCB parameter values are (code, packed value, length) triples; "
+               "their codecs are modelled at Go struct level (Model/OptVal.v, Model/OptValUnpack.v), proved to round-trip and "
+               "to agree with the octet-level views (option_value_roundtrip, option_unpack_then_pack_is_the_view, svcb_*), and "
+               "compared with the real pack()/unpack() methods on every run (optunpack / svcbunpack cases)"]
 
-    partial = ["wire -> value -> wire (record_converse) covers all 81 types under the canonicity condition plain_fields2 (names written "
+    partial = ["EDNS0 REPORTING (code 18) is excluded from option_value_roundtrip / option_unpack_then_pack_is_the_view: its codec is "
+               "the domain-name codec with a 255 octet buffer, whose round trip (names_roundtrip) is proved for buffers >= 320; "
+               "the REPORTING unpack/pack model is compared with the code on every run",
+               "struct-level round trip excludes, with *_refuted witnesses: EDNS0_LOCAL / SVCBLocal carrying a known code / key, "
+               "SUBNET SourceScope above the address width (pack writes it, unpack refuses it), empty SVCB address-hint lists",
+               "wire -> value -> wire (record_converse) covers all 81 types under the canonicity condition plain_fields2 (names written "
                "in full, canonical bitmap blocks, masked APL addresses, option/SVCB values that their codecs do not normalise) and for "
                "records with RDATA; the non-canonical encodings the decoder accepts and the RDATA-less records are *_refuted witnesses and "
                "harness findings (C01/rdataless-repack/<TYPE>)",
@@ -27,6 +42,8 @@ class C01(Check):
                "RCODE split by exhaustive kernel-checked sweeps"]
 
     def nontrivial(self, c):
+        if c.get("fn") in ("optunpack", "svcbunpack"):
+            return len(c["args"][1]) > 0 and c["out"].startswith("ok:")
         return len(c["args"][0]) > 60
 
 
